@@ -2,7 +2,7 @@ use crate::ident::ToRustIdent;
 use crate::ty::ToRustType;
 use convert_case::{Case, Casing};
 use hir::{Enum, HirField, HirSpec, NewType, Record, Struct};
-use mir::Ty;
+use mir::{DateSerialization, IntegerSerialization, Ty};
 use proc_macro2::TokenStream;
 use quote::quote;
 
@@ -43,10 +43,20 @@ pub fn to_rust_example_value(ty: &Ty, name: &str, spec: &HirSpec, use_ref_value:
                     docs: _docs,
                 }) => {
                     let fields = fields.iter().map(|(name, field)| {
-                        let not_ref = !force_ref || field.optional;
+                        // the struct declares these members as Option whatever the schema says (see class_fields)
+                        let optional = field.optional
+                            || matches!(
+                                field.ty,
+                                Ty::Integer {
+                                    ser: IntegerSerialization::NullAsZero | IntegerSerialization::String
+                                } | Ty::Date {
+                                    ser: DateSerialization::Integer
+                                }
+                            );
+                        let not_ref = !force_ref || optional;
                         let mut value = to_rust_example_value(&field.ty, name, spec, !not_ref);
                         let name = name.to_rust_ident();
-                        if field.optional {
+                        if optional {
                             value = quote!(Some(#value));
                         }
                         quote!(#name: #value)
